@@ -269,6 +269,10 @@ type Case struct {
 	Accepted int    `json:"accepted,omitempty"`
 	TokID    int    `json:"tokid,omitempty"`
 	Note     string `json:"note,omitempty"`
+
+	// History: for cases that are one step of a history on a long-lived
+	// object, the steps up to and including this one.
+	History []string `json:"history,omitempty"`
 }
 
 type run struct {
@@ -276,7 +280,8 @@ type run struct {
 	out   *hx.Out
 	i     int
 	ntok  int
-	scale int // size multiplier (1 quick)
+	scale int      // size multiplier (1 quick)
+	hist  []string // when set: the history the next emitted verification case is the last step of
 }
 
 func (r *run) emit(c *Case) {
@@ -299,6 +304,20 @@ func guard(f func()) (crash string) {
 	return ""
 }
 
+// stream runs one generator.  A generator that cannot complete its own setup
+// (a legitimate issue or sign step fails, or the code under test panics
+// outside a guarded call) is an observation, reported like a refused genuine
+// credential, and the run goes on with the next generator.
+func (r *run) stream(name string, f func()) {
+	defer func() {
+		if e := recover(); e != nil {
+			r.use("setup", "stream "+name+": a legitimate step of the generator failed: "+fmt.Sprint(e),
+				Facts{Genuine: true, InTime: true, Consent: true}, false, nil, "")
+		}
+	}()
+	f()
+}
+
 func main() {
 	seed := flag.Uint64("seed", 1, "seed")
 	n := flag.Int("n", 1, "size multiplier")
@@ -307,21 +326,21 @@ func main() {
 	if r.scale < 1 {
 		r.scale = 1
 	}
-	r.corpus()
-	r.codec()
-	r.signer()
-	r.sessions()
-	r.timeTokens()
-	r.rsaTime()
-	r.challenges()
-	r.signJSON()
-	r.jwtHS()
-	r.jwtJSON()
-	r.jwtRS()
-	r.kidMatrix()
-	r.coreSign()
-	r.exchanges()
-	r.claims()
-	r.passcodes()
+	r.stream("corpus", r.corpus)
+	r.stream("codec", r.codec)
+	r.stream("signer", r.signer)
+	r.stream("sessions", r.sessions)
+	r.stream("timeTokens", r.timeTokens)
+	r.stream("rsaTime", r.rsaTime)
+	r.stream("challenges", r.challenges)
+	r.stream("signJSON", r.signJSON)
+	r.stream("jwtHS", r.jwtHS)
+	r.stream("jwtJSON", r.jwtJSON)
+	r.stream("jwtRS", r.jwtRS)
+	r.stream("kidMatrix", r.kidMatrix)
+	r.stream("coreSign", r.coreSign)
+	r.stream("exchanges", r.exchanges)
+	r.stream("claims", r.claims)
+	r.stream("passcodes", r.passcodes)
 	r.usage()
 }
